@@ -1,13 +1,31 @@
 """Glue on a property's path that no model restates line by line (harness/frozen_glue.json, written by tools/mk_frozen.py): for the
-files the checked property is anchored in, the recorded functions must still have the recorded source (fail closed)."""
-import json, os
-from py2coq import assert_body
+files the checked property is anchored in, the recorded functions must still have the recorded source, every function its
+recorded decorators and signature, and the module- and class-level statements their recorded text (fail closed)."""
+import json, os, sys
+from py2coq import Refuse
 HERE = os.path.dirname(os.path.abspath(__file__))
+sys.path.insert(0, os.path.join(os.path.dirname(HERE), 'tools'))
+
 def generate_for(repo, pid):
+    import mk_frozen
     rec = json.load(open(os.path.join(HERE, 'frozen_glue.json')))
-    for f, fns in sorted(rec['functions'].items()):
+    for f in sorted(rec['functions']):
         if pid not in rec['anchored_in'].get(f, []): continue
-        for q, src in sorted(fns.items()):
-            assert_body(repo, f, q, src)
+        try: fns, heads, stmts = mk_frozen.snapshot(repo, f)
+        except (OSError, SyntaxError) as e: raise Refuse('cannot parse %s: %s' % (f, e))
+        for q, src in sorted(rec['functions'][f].items()):
+            if q not in fns: raise Refuse('%s:%s no longer exists (frozen glue)' % (f, q))
+            if fns[q] != src: raise Refuse('%s:%s differs from the recorded source (frozen glue):\n%s' % (f, q, fns[q][:600]))
+        for q, h in sorted(rec['headers'][f].items()):
+            if q not in heads: raise Refuse('%s:%s no longer exists' % (f, q))
+            if heads[q] != h: raise Refuse('%s:%s decorators / signature changed: %s  (recorded: %s)' % (f, q, heads[q][:200], h[:200]))
+        new = sorted(set(heads) - set(rec['headers'][f]))
+        if new: raise Refuse('%s: new function(s) %s (frozen glue records every function of the file)' % (f, ', '.join(new[:5])))
+        if stmts != rec['statements'][f]:
+            for scope in sorted(set(stmts) | set(rec['statements'][f])):
+                a, b = stmts.get(scope, []), rec['statements'][f].get(scope, [])
+                if a != b:
+                    d = [x for x in a if x not in b] or [x for x in b if x not in a] or a
+                    raise Refuse('%s: statements of %s changed: %s' % (f, scope, d[0][:300]))
     return {}
 def generate(repo): return {}
